@@ -46,8 +46,8 @@ def _m(name, kind, is_async=False, decos=None, body=None, **kw):
 
 
 @st.composite
-def st_inv(draw, ids):
-    inv = {"cid": ids.cid(), "on": draw(st.sampled_from(["CALL", "CALL", "SETATTR", "ALL"])),
+def st_inv(draw, ids, ons=("CALL", "CALL", "SETATTR", "ALL")):
+    inv = {"cid": ids.cid(), "on": draw(st.sampled_from(list(ons))),
            "lam": draw(st.booleans()), "selfarg": draw(st.integers(0, 5)) != 0,
            "err": {"form": draw(st.sampled_from(["default", "default", "instance", "class"]))}}
     return inv
@@ -95,15 +95,22 @@ def st_case(draw):
     ids = G.Ids()
     root = draw(st.sampled_from(["DBC", "DBC", "meta", "plain"]))
     shape = draw(st.sampled_from(["plain", "plain", "slots", "dataclass", "noinit"]))
-    levels = 1 if root == "plain" else draw(st.integers(1, 3))
+    # one case in five is about an inherited property that a sub-class extends with an accessor (`@K0.p.setter`)
+    force_ext = draw(st.integers(0, 4)) == 0
+    # with an attribute-set invariant anywhere, every assignment (property setters included) is nested in __setattr__;
+    # half of the programs have call-time invariants only so that setters are checked as operations of their own
+    ons = ("CALL",) if draw(st.booleans()) else ("CALL", "CALL", "SETATTR", "ALL")
+    if force_ext and root == "plain":
+        root = "DBC"
+    levels = 1 if root == "plain" else draw(st.integers(2 if force_ext else 1, 3))
     classes = []
     have_invs = False
     for lvl in range(levels):
         c = {"name": "K%d" % lvl, "bases": [lvl - 1] if lvl else [], "root": root,
              "shape": shape if lvl == 0 else ("slots" if shape == "slots" else "plain"), "invs": [], "members": []}
-        n_inv = draw(st.integers(0 if (have_invs or lvl + 1 < levels) else 1, 3))
+        n_inv = draw(st.integers(0 if ((have_invs or lvl + 1 < levels) and not (force_ext and lvl == 0)) else 1, 3))
         for _ in range(n_inv):
-            c["invs"].append(draw(st_inv(ids)))
+            c["invs"].append(draw(st_inv(ids, ons)))
             have_invs = True
         mem = c["members"]
         if lvl == 0:
@@ -118,7 +125,14 @@ def st_case(draw):
                 mem.append(_m("st", "static"))
             if draw(st.booleans()):
                 mem.append(_m("cm", "class"))
-            if draw(st.booleans()):
+            if force_ext:
+                mem.append(_m("p", "getter", False, draw(st_small_decos(ids, "getter"))))
+                other = draw(st.sampled_from(["none", "none", "setter", "deleter"]))
+                if other == "setter":
+                    mem.append(_m("p", "setter", False, draw(st_small_decos(ids, "setter"))))
+                elif other == "deleter":
+                    mem.append(_m("p", "deleter"))
+            elif draw(st.booleans()):
                 mem.append(_m("p", "getter", False, draw(st_small_decos(ids, "getter"))))
                 if draw(st.booleans()):
                     mem.append(_m("p", "setter", False, draw(st_small_decos(ids, "setter"))))
@@ -135,11 +149,18 @@ def st_case(draw):
                 mem.append(_m("m", "method", classes[0]["members"][0]["async"]))
             if draw(st.booleans()):
                 mem.append(_m("n%d" % lvl, "method"))
-            if any(x["name"] == "p" and x["kind"] == "getter" for x in classes[0]["members"]) and draw(st.booleans()):
-                # redefine the whole property with the same accessors
-                for x in classes[0]["members"]:
-                    if x["name"] == "p":
-                        mem.append(_m("p", x["kind"]))
+            base_p = {x["kind"] for k in classes for x in k["members"] if x["name"] == "p"}
+            if "getter" in base_p and (draw(st.booleans()) or (force_ext and lvl == 1)):
+                lacking = [k for k in ("setter", "deleter") if k not in base_p]
+                if lacking and (draw(st.booleans()) or (force_ext and lvl == 1)):
+                    # extend the INHERITED property with an accessor it lacks: `@K<base>.p.setter`
+                    owner = max(ki for ki, k in enumerate(classes) if any(x["name"] == "p" for x in k["members"]))
+                    mem.append(_m("p", draw(st.sampled_from(lacking)), False, draw(st_small_decos(ids, "setter")), extends=owner))
+                else:
+                    # redefine the whole property with the same accessors
+                    for kd in ("getter", "setter", "deleter"):
+                        if kd in base_p:
+                            mem.append(_m("p", kd))
         define_init = {"plain": draw(st.integers(0, 3)) != 0, "slots": draw(st.integers(0, 3)) != 0,
                        "dataclass": False, "noinit": lvl > 0 and draw(st.booleans())}[shape]
         if define_init:
@@ -189,8 +210,11 @@ def st_case(draw):
     ops = []
     n_inst = draw(st.integers(1, 2))
     inst_cls = {}
+    ext = [(ci, x) for ci, c in enumerate(classes) for x in c["members"] if x.get("extends") is not None]
     for k in range(n_inst):
         ci = draw(st.integers(0, levels - 1))
+        if k == 0 and ext:
+            ci = draw(st.integers(ext[0][0], levels - 1))  # an instance that has the extended property
         inst_cls[k] = ci
         kinds_here = {x["kind"] for (n, kd), (x, _) in members_of(ci).items()}
         takes = "init" in kinds_here or ("new" in kinds_here and shape != "dataclass")
@@ -218,6 +242,12 @@ def st_case(draw):
         o = dict(draw(st.sampled_from(choices)))
         o["truth"] = op_truth()
         ops.append(o)
+    if ext and not any(x["name"] == "p" for c in classes[ext[0][0] + 1:] for x in c["members"]):
+        # use the accessor that was added to the inherited property (somewhere in the history, and again at its end)
+        acc = ({"op": "set", "k": 0, "m": "p", "args": {"value": "a:v"}} if ext[0][1]["kind"] == "setter" else
+               {"op": "del", "k": 0, "m": "p"})
+        for pos in (draw(st.integers(1, len(ops))), len(ops) + 1):
+            ops.insert(pos, dict(acc, truth=op_truth()))
     return {"program": prog, "ops": ops, "codes": {}, "masks": [0], "fixed_truth": {}, "d19_shape": d19_shape(prog)}
 
 
@@ -272,6 +302,12 @@ def hist(ctx, case):
     ctx.count("levels:%d" % len(cl))
     for op in case["ops"]:
         ctx.count("op:%s" % op["op"])
+    ext = [(ci, m["kind"]) for ci, c in enumerate(cl) for m in c["members"] if m.get("extends") is not None]
+    if ext:
+        ctx.count("inherited property extended with an accessor")
+        kinds = {"setter": "set", "deleter": "del"}
+        if any(op["op"] == kinds[k] and op.get("m") == "p" for _, k in ext for op in case["ops"]):
+            ctx.count("... and the added accessor is used")
 
 
 def run(ctx, tier, seed, shard, nshards):
